@@ -12,3 +12,4 @@ import CGV.Props.C14
 #print axioms CGV.C14.C14_sort_keeps
 #print axioms CGV.bindSig_perm
 #print axioms CGV.lookup_perm
+#print axioms CGV.C14.C14_S3_witness
